@@ -130,6 +130,8 @@ var propDrivers = map[string]*propDriver{
 		notes: []string{"C04's interval semantics is a bounded stand-in (exhaustive enumeration of comparator shapes on the real vers.Contains), never counted as proved; the per-function contracts of the VERS chain that are proved are listed under discharged"}},
 	"C05": {extra: func(w *World, tier string) []VC { return w.shorthandVCs() },
 		notes: []string{"C05 = proved contracts on the direct matching predicates / desugaring functions that the engine reaches (cargo caret and tilde, hex pessimistic, ...) + bounded API obligations per (ecosystem, construct) that run the real NewVersionRange+Contains against the documented interval on a grid of bases and boundary probes; the bounded obligations are stand-ins and never counted as proved"}},
+	"C02": {extra: func(w *World, tier string) []VC { return w.rangeOpsVCs() },
+		notes: []string{"the per-ecosystem comparators[single|and|or] obligations are bounded stand-ins (real CLI contains vs compare) for the text-to-constraint step of the regexp-based range parsers and for text-to-fields parsing; never counted as proved"}},
 	"C03": {extra: func(w *World, tier string) []VC { return w.numOrderVCs() },
 		notes: []string{"the struct-level rules are proved for all values; text-to-fields parsing and the ecosystems whose comparison loops are outside govc's summaries are covered by the per-ecosystem bounded API obligations <eco>.(*Version).Compare.c03[...] (stand-ins, never counted as proved)"}},
 	"C07": {extra: func(w *World, tier string) []VC { return w.sortVCs() },
@@ -137,6 +139,7 @@ var propDrivers = map[string]*propDriver{
 	"C17": {extra: func(w *World, tier string) []VC { return w.versValidVC() }},
 	"C16": {extra: func(w *World, tier string) []VC { return w.versInvVCs(tier) },
 		notes: []string{"C16 is a bounded stand-in (the real vers.Contains on a range and every re-spelling of it); never counted as proved"}},
+	"C09": {extra: func(w *World, tier string) []VC { return w.pep440VCs() }},
 	"C10": {extra: func(w *World, tier string) []VC { return w.refOrderVCs("C10") }},
 	"C11": {extra: func(w *World, tier string) []VC { return w.refOrderVCs("C11") }},
 	"C12": {extra: func(w *World, tier string) []VC { return w.refOrderVCs("C12") }},
@@ -170,7 +173,7 @@ var propDrivers = map[string]*propDriver{
 					return res
 				}})
 		}
-		return vcs
+		return append(vcs, w.strictGrammarVC()...)
 	}, notes: []string{"parse-level agreement (text to fields) is covered by the bounded API obligations <eco>.(*Version).Compare.semver-precedence.bounded; the struct-level clauses are proved for all field values"}},
 	"C18": {extra: func(w *World, tier string) []VC { return w.textFlowVCs() },
 		notes: []string{
